@@ -24,6 +24,7 @@ ERRLOG = "OrqModel.Properties.ErrLog"
 KEYS = "OrqModel.Properties.Keys"
 NEXTTOTAL = "OrqModel.Properties.NextTotal"
 TRUTH = "OrqModel.Properties.Truth"
+ANCESTRY = "OrqModel.Properties.Ancestry"
 
 TRUSTED = [
     "Lean 4.33 kernel (thorough tier: re-checked by leanchecker)",
@@ -79,10 +80,11 @@ PROPS = {
     ),
     "C06": dict(
         title="context = variables published by causal ancestors",
-        theorems={JOIN: ["C06_delta_keys"], VALUES: ["C06_merge_later_wins", "C16_merge_preserves_values"], HISTORY: ["C18_context_fixed"]},
+        theorems={JOIN: ["C06_delta_keys"], VALUES: ["C06_merge_later_wins", "C16_merge_preserves_values"], HISTORY: ["C18_context_fixed"],
+                  ANCESTRY: ["C06_offer_snapshots_from_ancestors", "C06_snapshots_reach_along_true_transitions", "C06_publications_append_only"]},
         keys=["contexts", "sequence", "staged", "output"], offers="full",
         prof=dict(p_publish=0.8, p_clash=0.4, p_items=0.05, p_retry=0.05, p_template=0.35, templates=[6, 6, 6, 0, 2, 5, 7, 13, 13], p_null_over=0.3), hist=dict(p_fail=0.15, p_rerun=0.3),
-        monitor="C06", unproven=["C06_ctx_indices_exact (ancestor-exactness as a history invariant) not proved; search only"],
+        monitor="C06", unproven=["completeness (every snapshot published along a path of satisfied transitions into the task is listed) and the supersession order of the overlay are not proved; proved: soundness — every listed snapshot is the initial one or reached the task along satisfied transitions"],
     ),
     "C07": dict(
         title="join runs once and only when satisfied",
